@@ -73,6 +73,13 @@ def run(ctx):
                                required_actions=["ReadClock", "TryMkdir", "Write", "Tick", "Finish"],
                                note="every interleaving of clock reads and atomic mkdir attempts of concurrent starts, "
                                     "pre-existing colliding directories, clock advancing or not; liveness under weak fairness")
+    if ctx.tier == "thorough":
+        # (three concurrent starts exceed 7 x 10^7 states with the schedule history: two starts, once with two
+        # files and once with a clock that advances twice)
+        _, more = ctx.model_check("MC_Outputs", "MC_Outputs_thorough2.cfg", export=True, timeout=1500,
+                                  required_actions=["ReadClock", "TryMkdir", "Write", "Tick", "Finish"],
+                                  note="two concurrent starts, the clock advancing up to twice")
+        cases = cases + more
     ctx.cov["exhaustive"] = True
     cases = cases[: ctx.pick(200, 2500)]
     traces = []
